@@ -202,3 +202,9 @@ Example cyc_chain_removed :
   | Err _ => False
   end.
 Proof. vm_compute. split; reflexivity. Qed.
+
+(* the chain of depth 3 (+ the leaf) needs fuel 4; every larger fuel gives the same answer *)
+Example cyc_chain_fuel :
+  delete_by_id cyc_schema (mkOctx false []) 3 (cyc_st, []) n_n [49] = Err EOutOfFuel /\
+  delete_by_id cyc_schema (mkOctx false []) 4 (cyc_st, []) n_n [49] = delete_by_id cyc_schema (mkOctx false []) 40 (cyc_st, []) n_n [49].
+Proof. vm_compute. split; reflexivity. Qed.
